@@ -10,6 +10,7 @@ import (
 	"strings"
 
 	"golang.org/x/tools/go/cfg"
+	"golang.org/x/tools/go/packages"
 )
 
 // FlowGraph wraps a go/cfg graph of one function body with dominators and
@@ -1042,9 +1043,18 @@ type XFlow struct {
 func newXFlow(c *Ctx, info *types.Info, host *ast.BlockStmt, isHelper func(*types.Func) bool) *XFlow {
 	x := &XFlow{c: c, info: info, Host: newFlowGraph(info, host)}
 	byFn := map[*types.Func]*xHelper{}
+	byLit := map[*ast.FuncLit]*xHelper{}
 	for _, l := range x.Host.Find(func(n ast.Node) bool { _, ok := n.(*ast.CallExpr); return ok }) {
-		f := callee(info, l.Node.(*ast.CallExpr))
-		if f == nil || !isHelper(f) {
+		call := l.Node.(*ast.CallExpr)
+		f := callee(info, call)
+		if f == nil {
+			// a local closure with one definition (writebuf := func() error {…}; … writebuf()) is a helper too
+			if h := x.closureHelper(byLit, call); h != nil {
+				h.sites = append(h.sites, l)
+			}
+			continue
+		}
+		if !isHelper(f) {
 			continue
 		}
 		h := byFn[f]
@@ -1060,6 +1070,89 @@ func newXFlow(c *Ctx, info *types.Info, host *ast.BlockStmt, isHelper func(*type
 		h.sites = append(h.sites, l)
 	}
 	return x
+}
+
+// closureHelper: the call's function is a local variable whose single definition in the enclosing declared
+// function is a function literal; the literal's body becomes a helper (under a synthetic FuncInfo).
+func (x *XFlow) closureHelper(byLit map[*ast.FuncLit]*xHelper, call *ast.CallExpr) *xHelper {
+	id, ok := ast.Unparen(call.Fun).(*ast.Ident)
+	if !ok {
+		return nil
+	}
+	v, ok := x.info.ObjectOf(id).(*types.Var)
+	if !ok || v.IsField() || v.Pkg() == nil || v.Parent() == v.Pkg().Scope() {
+		return nil
+	}
+	var decl *ast.FuncDecl
+	for n := x.c.Parent(call); n != nil; n = x.c.Parent(n) {
+		if d, ok := n.(*ast.FuncDecl); ok {
+			decl = d
+			break
+		}
+	}
+	if decl == nil || decl.Body == nil {
+		return nil
+	}
+	lit, ok := ast.Unparen(resolveLocal(x.info, decl.Body, id)).(*ast.FuncLit)
+	if !ok {
+		// var f = func…  (a value spec) is not followed by resolveLocal; look for it
+		ast.Inspect(decl.Body, func(n ast.Node) bool {
+			if vs, ok := n.(*ast.ValueSpec); ok {
+				for i, nm := range vs.Names {
+					if x.info.ObjectOf(nm) == v && i < len(vs.Values) {
+						if l, ok := ast.Unparen(vs.Values[i]).(*ast.FuncLit); ok && countAssignments(x.info, decl.Body, v) == 0 {
+							lit = l
+						}
+					}
+				}
+			}
+			return true
+		})
+		if lit == nil {
+			return nil
+		}
+	}
+	if lit.Body.Pos() <= call.Pos() && call.End() <= lit.Body.End() {
+		return nil // recursion
+	}
+	if h := byLit[lit]; h != nil {
+		return h
+	}
+	var pkg *packages.Package
+	for _, pk := range x.c.Pkgs {
+		if pk.TypesInfo == x.info {
+			pkg = pk
+		}
+	}
+	sig, _ := x.info.TypeOf(lit).(*types.Signature)
+	if pkg == nil || sig == nil {
+		return nil
+	}
+	fi := &FuncInfo{
+		Obj:  types.NewFunc(lit.Pos(), pkg.Types, decl.Name.Name+"$"+id.Name, sig),
+		Decl: &ast.FuncDecl{Name: ast.NewIdent(decl.Name.Name + "$" + id.Name), Type: lit.Type, Body: lit.Body},
+		Pkg:  pkg,
+	}
+	h := &xHelper{fi: fi, fg: newFlowGraph(x.info, lit.Body)}
+	byLit[lit] = h
+	x.helpers = append(x.helpers, h)
+	return h
+}
+
+// countAssignments: the number of assignment statements that store to the variable.
+func countAssignments(info *types.Info, body ast.Node, v types.Object) int {
+	n := 0
+	ast.Inspect(body, func(x ast.Node) bool {
+		if as, ok := x.(*ast.AssignStmt); ok {
+			for _, l := range as.Lhs {
+				if id, ok := ast.Unparen(l).(*ast.Ident); ok && info.ObjectOf(id) == v {
+					n++
+				}
+			}
+		}
+		return true
+	})
+	return n
 }
 
 // Find returns the events matching pred in the host and, per call site, in the helpers.
@@ -1100,6 +1193,10 @@ func (x *XFlow) mustHappen(l XLoc) bool {
 	// falling off the end
 	for _, b := range h.fg.G.Blocks {
 		if h.fg.Reachable(b) && len(b.Succs) == 0 && (len(b.Nodes) == 0 || !isReturn(b.Nodes[len(b.Nodes)-1])) {
+			// a block that ends in a call that never returns (log.Fatalf, panic, os.Exit) is not a completion
+			if len(b.Nodes) > 0 && endsInNoReturn(h.fi.Info(), b.Nodes[len(b.Nodes)-1]) {
+				continue
+			}
 			if ok, _ := reachBlockAvoiding(h.fg, b, func(t Loc) bool { return t.Block == l.Inner.Block && t.Idx == l.Inner.Idx }, func(*cfg.Block, int) bool { return false }); ok {
 				return false
 			}
@@ -1154,4 +1251,13 @@ func resolveLocal(info *types.Info, body ast.Node, e ast.Expr) ast.Expr {
 		return def
 	}
 	return e
+}
+
+// endsInNoReturn: the node is (an expression statement of) a call that never returns.
+func endsInNoReturn(info *types.Info, n ast.Node) bool {
+	if es, ok := n.(*ast.ExprStmt); ok {
+		n = es.X
+	}
+	call, ok := n.(*ast.CallExpr)
+	return ok && noReturnCall(info, call)
 }
